@@ -1016,3 +1016,19 @@ b('C05', 'option_has_value_matches_some', 'src/par/fallible.rs', """    fn has_v
 m('C05', 'result_has_value_matches_err', 'src/par/fallible.rs', """    fn has_value(&self) -> bool {
         self.is_ok()""", """    fn has_value(&self) -> bool {
         matches!(self, Err(_))""", 'C05-FALLIBLE')
+m('C02', 'flatmap_find_skips_by_size_hint', 'src/core/flatmap_fil_find.rs', """                        fmap(x.1)
+                            .into_iter()
+                            .find(filter)
+                            .map(|y| (chunk.begin_idx + x.0, y))""", """                        let mut values = fmap(x.1).into_iter();
+                        match values.size_hint().0 {
+                            0 => None,
+                            _ => values.find(filter).map(|y| (chunk.begin_idx + x.0, y)),
+                        }""", 'C02-EXHAUST')
+b('C02', 'flatmap_find_closure_as_match', 'src/core/flatmap_fil_find.rs', """                        fmap(x.1)
+                            .into_iter()
+                            .find(filter)
+                            .map(|y| (chunk.begin_idx + x.0, y))""", """                        let found = fmap(x.1).into_iter().find(filter);
+                        match found {
+                            Some(y) => Some((chunk.begin_idx + x.0, y)),
+                            None => None,
+                        }""")
